@@ -157,13 +157,52 @@ def rewritten_stream(chk, b):
         rewritten_case(chk, b.describe(), b.schema_line(), b.classes, v)
 
 
+def fail_a_delimited_dump(classes, v):
+    """a twin of value v with an unencodable LAST item in a repeated numeric field (props.c09.poison) is written with
+    dump(SIZE_DELIMITED): the call must raise (after its earlier fields were encoded); returns the poison or None"""
+    from props.c09 import poison
+    try:
+        bad = bpgen.to_py(v, classes)
+    except Exception:
+        return None
+    ps = poison(bad)
+    if ps is None:
+        return None
+    try:
+        bad.dump(io.BytesIO(), betterproto.SIZE_DELIMITED)
+    except Exception:
+        return ps
+    return None
+
+
+def after_failure_stream(chk, b, rng):
+    """state left behind by a delimited dump that RAISED part-way: right after it, on the same thread, a stream of valid
+    messages is written to a fresh stream and must be framed and read back exactly as always"""
+    for v in b.values[:6]:
+        ps = fail_a_delimited_dump(b.classes, v)
+        chk.count("after_failure_tried")
+        if ps is None:
+            continue
+        vals = [rng.choice(b.values) for _ in range(rng.choice([1, 2, 3]))]
+        try:
+            msgs = [bpgen.to_py(x, b.classes) for x in vals]
+        except Exception:
+            continue
+        cis = [x[1] for x in vals]
+        inp = {"schema": b.describe(), "values": [bpgen.term(x) for x in vals], "classes": cis, "bytes": [bytes(m).hex() for m in msgs],
+               "after_failed_delimited_dump": {"value": bpgen.term(v), "field": ps[0], "item": repr(ps[1])}}
+        chk.count("after_failure_streams")
+        chk.case(b.schema_line() + "|after-failure|" + bpgen.term(v) + repr(inp["bytes"]), True, {"after_failed_delimited_dump": inp["after_failed_delimited_dump"]})
+        oracle(chk, inp, msgs, [type(m) for m in msgs], True, rng)
+
+
 def run(chk, drv):
     quick = chk.tier == "quick"
     rng = chk.rng
     length_sweep(chk, drv)
     chk.extra["rule"] = ("messages whose encoded length sits on every boundary of the length prefix (0, 127/128, 256, 16383/16384, …); sequences of 0..6 messages of mixed types from a random schema (empty messages, messages parsed with unknown fields, "
                          "default-but-present optional members) written with dump(SIZE_DELIMITED); read back by successive loads, by an older-schema reader, "
-                         "and at every cut point (quick: ≤ 40 cut points per stream). non-trivial = stream with ≥ 1 message; distinct by (schema, stream)")
+                         "and at every cut point (quick: ≤ 40 cut points per stream); plus streams written right after a delimited dump of a twin RAISED part-way (unencodable last item). non-trivial = stream with ≥ 1 message; distinct by (schema, stream)")
     nb = 60 if quick else 500
     for bi in range(nb):
         b = W.Batch(rng, "d%d" % bi, 8)
@@ -172,6 +211,7 @@ def run(chk, drv):
             assert drv.ask1(b.schema_line()) == "ok"
         inplace_stream(chk, b)
         rewritten_stream(chk, b)
+        after_failure_stream(chk, b, rng)
         for rep in range(2):
             n = rng.choice([0, 1, 2, 3, 4, 6])
             vals = [rng.choice(b.values) for _ in range(n)]
@@ -341,6 +381,8 @@ def replay(chk, rp):
     if "bytes" in inp and "schema" in inp:
         schema = schema_from_desc(inp["schema"])
         classes = bpgen.build_bp(schema)
+        if "after_failed_delimited_dump" in inp:
+            fail_a_delimited_dump(classes, parse_term(inp["after_failed_delimited_dump"]["value"].split())[0])
         msgs = [classes[ci]().parse(bytes.fromhex(h)) for ci, h in zip(inp["classes"], inp["bytes"])]
         c = type(chk)(chk.pid, "thorough", 0)
         oracle(c, inp, msgs, [type(m) for m in msgs], False, c.rng)
